@@ -37,6 +37,13 @@ def run(cx):
             "-maplit", "-out", rp])
     batches.append(("random", rp))
 
+    # G: constant classes in every position, scaled shapes (Shapes.tla): compared across repetitions / processes only
+    for fam in (("consts", "scale") if not cx.quick() else ("scale",)):
+        _, sp = langlib.gen_shapes(cx, fam)
+        so = cx.path("shapes_%s.cases.ndjson" % fam)
+        cx.run([lang, "render", "-in", sp, "-out", so])
+        batches.append(("shapes-" + fam, so))
+
     total = nondet = checked = unknown_total = 0
     nontriv = set()
     for label, path in batches:
